@@ -12,7 +12,134 @@ the top-level package of the frame's class.
 """
 from numbers import Number
 
+from fractions import Fraction
+
 NaN = None
+
+
+class R(object):
+    """Exact rational n/d with a (possibly symbolic) integer numerator and a concrete positive
+    denominator.  All model values are R, so that streamz' own arithmetic (totals / counts,
+    x2 / n - (x / n) ** 2, exponential weights ...) stays in exact integer arithmetic under
+    the solver instead of floats: equality is decided by cross-multiplication."""
+    __slots__ = ("n", "d")
+
+    def __init__(self, n, d=1):
+        self.n = n
+        self.d = d
+
+    @staticmethod
+    def of(x):
+        if isinstance(x, R):
+            return x
+        if type(x) is float:
+            f = Fraction(x)
+            return R(f.numerator, f.denominator)
+        if isinstance(x, Fraction):
+            return R(x.numerator, x.denominator)
+        return R(x, 1)
+
+    def isnan(self):
+        return self.d == 0
+
+    def __add__(self, o):
+        o = R.of(o)
+        if self.d == 0 or o.d == 0:
+            return R(0, 0)
+        if self.d == o.d:
+            return R(self.n + o.n, self.d)
+        return R(self.n * o.d + o.n * self.d, self.d * o.d)
+
+    __radd__ = __add__
+
+    def __sub__(self, o):
+        o = R.of(o)
+        if self.d == 0 or o.d == 0:
+            return R(0, 0)
+        if self.d == o.d:
+            return R(self.n - o.n, self.d)
+        return R(self.n * o.d - o.n * self.d, self.d * o.d)
+
+    def __rsub__(self, o):
+        return R.of(o) - self
+
+    def __neg__(self):
+        return R(-self.n, self.d)
+
+    def __mul__(self, o):
+        o = R.of(o)
+        return R(self.n * o.n, self.d * o.d)
+
+    __rmul__ = __mul__
+
+    def __truediv__(self, o):
+        o = R.of(o)
+        on = o.n
+        if type(on) is not int:
+            raise NotImplementedError("division by a symbolic quantity")
+        if on == 0 or self.d == 0 or o.d == 0:
+            return R(0, 0)        # numpy semantics: nan/inf instead of an exception
+        if on < 0:
+            return R(-self.n * o.d, self.d * -on)
+        return R(self.n * o.d, self.d * on)
+
+    def __rtruediv__(self, o):
+        return R.of(o) / self
+
+    def __pow__(self, p):
+        if p == 2:
+            return R(self.n * self.n, self.d * self.d)
+        if p == 0.5:
+            return ("sqrt", self)
+        raise NotImplementedError
+
+    def _cmp(self, o):
+        o = R.of(o)
+        return self.n * o.d, o.n * self.d
+
+    def __eq__(self, o):
+        if o is None:
+            return self.d == 0
+        if isinstance(o, (tuple, str)):
+            return False
+        if self.d == 0 or R.of(o).d == 0:
+            return self.d == 0 and R.of(o).d == 0    # (harness-level: nan matches nan)
+        a, b = self._cmp(o)
+        return a == b
+
+    def __ne__(self, o):
+        return not self.__eq__(o)
+
+    def __lt__(self, o):
+        a, b = self._cmp(o)
+        return a < b
+
+    def __le__(self, o):
+        a, b = self._cmp(o)
+        return a <= b
+
+    def __gt__(self, o):
+        a, b = self._cmp(o)
+        return a > b
+
+    def __ge__(self, o):
+        a, b = self._cmp(o)
+        return a >= b
+
+    __hash__ = None
+
+    def __float__(self):
+        return self.n / self.d
+
+    def __repr__(self):
+        return "R(%r/%r)" % (self.n, self.d)
+
+
+Number.register(R)
+
+
+def wrap(vals):
+    return [v if (v is None or isinstance(v, R)) else R(v, 1) for v in vals]
 
 
 class MIndex:
@@ -33,6 +160,8 @@ class MIndex:
         return self.values[i]
 
     def min(self):
+        if not self.values:
+            return None          # NaT / nan
         m = self.values[0]
         for v in self.values[1:]:
             if v < m:
@@ -40,6 +169,8 @@ class MIndex:
         return m
 
     def max(self):
+        if not self.values:
+            return None
         m = self.values[0]
         for v in self.values[1:]:
             if v > m:
@@ -156,7 +287,7 @@ class MSeries:
         return [v for v in self.values if v is not None]
 
     def sum(self):
-        t = 0
+        t = R(0, 1)
         for v in self._valid():
             t = t + v
         return t
@@ -225,16 +356,30 @@ class MSeries:
         return MSeries([_binop(a, other, op) for a in self.values], self.index, self.name)
 
     def _aligned(self, other, op, fill):
-        keys = list(self.index.values)
-        for k in other.index.values:
+        def unwrap(k):
+            # value_counts keys are model values; as index labels they are plain numbers
+            return k.n if isinstance(k, R) and k.d == 1 else k
+        ka = [unwrap(k) for k in self.index.values]
+        kb = [unwrap(k) for k in other.index.values]
+        keys = list(ka)
+        for k in kb:
             if k not in keys:
                 keys.append(k)
         keys = sorted(keys)
-        a, b = self.to_dict(), other.to_dict()
         out = []
         for k in keys:
-            x = a.get(k, fill) if k in a or fill is not None else None
-            y = b.get(k, fill) if k in b or fill is not None else None
+            x = y = None
+            fa = fb = False
+            for kk, v in zip(ka, self.values):
+                if kk == k:
+                    x, fa = v, True
+            for kk, v in zip(kb, other.values):
+                if kk == k:
+                    y, fb = v, True
+            if not fa:
+                x = fill
+            if not fb:
+                y = fill
             out.append(_binop(x, y, op))
         return MSeries(out, MIndex(keys, self.index.name), self.name)
 
@@ -416,6 +561,8 @@ class Duration:
         self.n = n.n if isinstance(n, Duration) else n
 
     def __rsub__(self, other):
+        if other is None:
+            return None
         return other - self.n
 
     def __radd__(self, other):
@@ -519,6 +666,12 @@ class MGroupBy:
 
     def __getitem__(self, col):
         return MGroupBy(self.frame, self.grouper, col)
+
+    def __getattr__(self, col):
+        fr = self.__dict__.get("frame")
+        if fr is not None and col in fr.cols:
+            return MGroupBy(fr, self.grouper, col)
+        raise AttributeError(col)
 
     def _keys(self):
         g = self.grouper
